@@ -1,5 +1,5 @@
 # replay of a bounded stand-in violation (C09/C10): re-run native/c09_engine.py
 import sys
-print('fock [measure q1 then Del q0, feed q2]: raised ParameterError: q1: trying to use a nonexistent measurement result (e.g., before it has been measured). (after [])')
+print('C10: im(q) of a measured parameter with outcome (-0.25-1.5j) evaluates to 0j, the function of the outcome is (-1.5+0j)')
 print('REPLAY-VIOLATION')
 sys.exit(1)
